@@ -9,7 +9,7 @@ CONSTANTS
   Addrs <- QAddrs
   Seconds = {"none", "distinct", "dup", "inherited", "blockaddr", "twoaddr", "twoblocks", "twoblocksdup", "implenum", "implmissing", "implenumbad"}
   Bad = {0, 1, 2, 3, 4}
-  Singles = {"none", "type", "enum", "enumnc", "opaque"}
+  Singles = {"none", "type", "enum", "enumnc", "enumneg", "opaque"}
   EvalKinds = {"none", "scalar", "ptr", "arr", "struct", "missing", "two", "readdr"}
   Ptrs = {4, 8}
 INVARIANTS Replay
